@@ -4,7 +4,7 @@ local checks into first-match preservation, and the try-each-method front end.  
 loops over tables of entry objects are decided by the bounded layer (bounded/c04_tables.py)."""
 from pyvc.spec import contract, lemma
 from pyvc.values import TInt, TBool, TBV, TOpt, TSeq, TTuple
-from pyvc.speclib import implies, iff, forall_keys, exists_keys
+from pyvc.speclib import implies, iff, forall_keys, exists_keys, forall_int
 
 KEY = TBV(40, 0, 0xffffffff)      # 32-bit keys/masks as signed 40-bit vectors (no overflow possible)
 
@@ -288,6 +288,12 @@ class MinimiseTable:
 
 
 # ---- ordered covering: generality ------------------------------------------------------------------------
+@opaque
+def gen(key, mask):
+    """generality of an entry = number of X bits (opaque inside quantified clauses)"""
+    return sum((1 if ((~key & ~mask) & (1 << i)) != 0 else 0) for i in range(32))
+
+
 @contract("rig/routing_table/ordered_covering.py::_get_generality")
 class GetGenerality:
     properties = ("C04",)
@@ -300,3 +306,52 @@ class GetGenerality:
 
     def ensures_in_range(key, mask, result):
         return 0 <= result <= 32
+
+    def ensures_is_the_generality(key, mask, result):
+        return result == gen(key, mask)
+
+
+# ---- ordered covering: where a merged entry is inserted -------------------------------------------------------
+KM = _TRec("RoutingTableEntry", key=KEY, mask=KEY)
+
+
+def g_at(table, i):
+    return gen(select(table, i).key, select(table, i).mask)
+
+
+@contract("rig/routing_table/ordered_covering.py::_get_insertion_index")
+class InsertionIndex:
+    """binary search followed by a forward scan: on a table listed in increasing order of generality
+    the result splits it into the entries of smaller generality and those of equal or greater one"""
+    properties = ("C04",)
+    params = dict(routing_table=TSeq(KM), generality=TInt(0, 33))
+    modular = ("rig/routing_table/ordered_covering.py::_get_generality",)
+    loop_headers = {0: "while pg != generality and bottom < pos < top:", 1: "while (pos < len(routing_table) and"}
+
+    def native(routing_table, generality):
+        raise __import__("pyvc.replay", fromlist=["OutsideHarness"]).OutsideHarness()
+
+    def requires(routing_table, generality):
+        return forall_int(lambda i, j: implies(0 <= i < j < seq_len(routing_table), g_at(routing_table, i) <= g_at(routing_table, j)))
+
+    def inv_0_search_window(routing_table, generality, bottom, top, pos, pg):
+        n = seq_len(routing_table)
+        return (0 <= bottom <= pos and pos < top and top <= n and pos < n and pg == g_at(routing_table, pos)
+                and (bottom == 0 or g_at(routing_table, bottom) < generality)
+                and (top == n or g_at(routing_table, top) > generality))
+
+    def variant_0(bottom, top):
+        return top - bottom
+
+    def inv_1_everything_before_is_less_general(routing_table, generality, pos):
+        return (0 <= pos <= seq_len(routing_table)
+                and forall_range(0, pos, lambda i: g_at(routing_table, i) <= generality))
+
+    def variant_1(routing_table, pos):
+        return seq_len(routing_table) - pos
+
+    def ensures_splits_the_table_at_the_generality(routing_table, generality, result):
+        n = seq_len(routing_table)
+        return (0 <= result <= n
+                and forall_range(0, result, lambda i: g_at(routing_table, i) < generality)
+                and forall_range(result, n, lambda i: g_at(routing_table, i) >= generality))
